@@ -391,6 +391,15 @@ def C(recs, cats=(), stats=(), na="NA", nosingleton=False, disk=False, chunks=2,
                 workers=workers, batch=batch, dbatch=dbatch, tag=tag)
 
 
+HASH_COLLISIONS = [
+    ("aggtgaaggaaccaacgttgacatgcgtgg", "gcccaaaatggttcaggtggccgccagtag"), ("cccgccagcggcgcgccgaagtgctgcttt", "tggtcgattaccctgttgcgcgctcgttga"),   # crc32 (IEEE)
+    ("tgacggatgagagtctgacgggggaagggt", "tttgtagcataacgggaggccgctcgtctc"), ("ttattaggtcctattccacttgataatcag", "gcatgatacacagctccatgaccaggagcc"),   # crc32c
+    ("aatgtacaatcg", "cccctattgcaa"), ("tctgcgtcgcac", "ctttccgccgga"),                                                                         # adler32
+    ("cgaaagggcgacgcctagaaaattgctcaa", "tcatgcgctgtactctatacgctatttaat"), ("caatccaagtaagatgttgatccaggagac", "aaatcgtgcttcagccacattggactgcct"),   # fnv32
+    ("ccaccctggcagattagcatgtatttgaca", "gagaaactaaagttgtgcgcacgccgtgtc"), ("gtgagggccttctaaaaacagataattaaa", "tcagtagatctagcgatactcctgtggtgg"),   # fnv32a
+]
+
+
 def corpus():
     cs = []
     a = [R("r1", "acgt", 0, dict(sample="A")), R("r2", "acgt", 3, dict(sample="B")), R("r3", "acgt", 1, dict(sample="A")),
@@ -448,6 +457,14 @@ def corpus():
     cs.append(C(es, stats=["sample"], chunks=7, tag="records without nucleotides"))
     cs.append(C(es, cats=["sample"], nosingleton=True, chunks=7, tag="records without nucleotides, categories"))
     cs.append(C(es, stats=["sample"], chunks=7, disk=True, tag="records without nucleotides on disk: refused by the chunk reader"))
+    # distinct sequences with equal 32-bit checksums (crc32 IEEE, crc32c, adler32, fnv32, fnv32a; found by a birthday
+    # search): a classifier keyed by a hash of the sequence instead of the sequence merges them
+    hc = []
+    for k, (x, y) in enumerate(HASH_COLLISIONS):
+        hc += [R("hx%d" % k, x, 2, dict(sample="A")), R("hy%d" % k, y, 1, dict(sample="B")), R("hz%d" % k, x, 1, dict(sample="B"))]
+    for disk in (False, True):
+        cs.append(C(hc, stats=["sample"], disk=disk, chunks=1, tag="hash-colliding sequences"))
+        cs.append(C(hc, cats=["sample"], disk=disk, chunks=7, workers=4, tag="hash-colliding sequences, categories"))
     cs.append(C([], tag="empty"))
     cs.append(C([R("r1", "acgt")], tag="one"))
     cs.append(C([R("r1", "acgt")], nosingleton=True, tag="one-dropped"))
